@@ -67,6 +67,9 @@ type propSpec struct {
 	// Parts are additional scenarios that serve this property (each gets Percent of the runs and
 	// of the search budget; the main scenario gets the rest).
 	Parts []partSpec
+	// ChunkRuns > 0: the main scenario's worker processes are restarted at every multiple of
+	// ChunkRuns (the scenario treats those run indices as cold starts of the process)
+	ChunkRuns int
 }
 
 type partSpec struct {
@@ -983,7 +986,15 @@ func (c *ctx) mainFlow(replay string, keep bool) int {
 					if left < 5*time.Second {
 						break
 					}
-					wo := c.worker(i, from, to, c.spec.Cpu, left)
+					upTo := to
+					if c.spec.ChunkRuns > 0 && scenario == c.spec.Scenario {
+						// fresh worker processes at fixed run indices: process-global state that is
+						// built once per process (a sync.Once, a pool) is "cold" there
+						if b := (from/c.spec.ChunkRuns + 1) * c.spec.ChunkRuns; b < upTo {
+							upTo = b
+						}
+					}
+					wo := c.worker(i, from, upTo, c.spec.Cpu, left)
 					agg.results = append(agg.results, wo.results...)
 					for k, v := range wo.counters {
 						agg.counters[k] += v
@@ -1001,6 +1012,11 @@ func (c *ctx) mainFlow(replay string, keep bool) int {
 					}
 					if wo.exitErr != nil {
 						agg.exitErr = fmt.Errorf("worker %d failed: %v\n%s", i, wo.exitErr, tail([]byte(wo.stderr), 3000))
+						break
+					}
+					if upTo < to {
+						from = upTo
+						continue
 					}
 					break
 				}
